@@ -294,3 +294,38 @@ def relabelling(cx, perm):
             numpy.asarray(sp2.axis.data, dtype=float), numpy.asarray(sp.axis.data, dtype=float), rtol=0, atol=1e-12))
     cx.prove("axis", same_axis)
     cx.prove_eq("spectrum_invariant_under_relabelling", sp2.data, sp.data, tol=1e-9)
+
+
+@harness("C11", "purity_with_remainder_coupling",
+         quick=[dict(nmol=3)], thorough=[dict(nmol=3), dict(nmol=2)],
+         functions=[F_A + ":AbsSpectrumCalculator._calculate_aggregate",
+                    "quantarhei/qm/hilbertspace/hamiltonian.py:Hamiltonian.remove_cutoff_coupling",
+                    "quantarhei/qm/hilbertspace/hamiltonian.py:Hamiltonian.diagonalize",
+                    "quantarhei/qm/hilbertspace/operators.py:Operator.transform"],
+         bound="trimer (thorough also dimer) with concrete energies and couplings, one coupling below a cut-off that has "
+               "been removed from the Hamiltonian with remove_cutoff_coupling (the Hamiltonian carries a remainder "
+               "coupling), symbolic dipoles: calculating the spectrum leaves the Hamiltonian, its remainder coupling "
+               "and the dipole operator unchanged (to 1e-9: the concrete matrices pass through LAPACK and back; "
+               "dipole components within [-10, 10])",
+         out="supplied relaxation tensor")
+def purity_with_remainder_coupling(cx, nmol):
+    import quantarhei as qr
+    agg = build_aggregate(cx, nmol, Nt=4, coupling=0.02, reorgs=[20 + 15 * i for i in range(nmol)])
+    N = agg.HamOp.dim
+    with cx.concrete():
+        ta = qr.TimeAxis(0.0, 4, 1.0)
+        # couplings are 0.02/(j-i): with three molecules 0.01 between the outer ones; cut-off between the two values
+        agg.HamOp.remove_cutoff_coupling(0.015 if nmol > 2 else 0.03)
+        H0 = numpy.array(agg.HamOp._data, dtype=float).copy()
+        JR0 = numpy.array(agg.HamOp.JR, dtype=float).copy()
+    cx.prove("has_remainder_coupling", bool(numpy.any(JR0 != 0)))
+    D, ds = _site_dipoles(cx, N)
+    for v in ds:
+        for x in v:
+            cx.assume((x <= 10) & (x >= -10) if cx.sym else abs(x) <= 10, "dipole components within [-10, 10]")
+    _, sp1 = _run_aggregate(cx, agg, ta, H0, D)
+    cx.assume_denominators_nonzero("")
+    # the concrete Hamiltonian went through LAPACK and back: equal up to rounding
+    cx.prove_close("H_unchanged", agg.HamOp._data, H0, 1e-9)
+    cx.prove_close("remainder_unchanged", agg.HamOp.JR, JR0, 1e-9)
+    cx.prove_close("D_unchanged", agg.TrDMOp._data, D, 1e-9)
